@@ -238,6 +238,21 @@ Section Equals.
     end.
 End Equals.
 
+(** * Ownership of the units object a variable holds
+
+    In the library the variable holds a POINTER to a units object which may have been created by
+    Variable::setUnits(name), may be owned by the model that also owns the variable, by another model, by no
+    model at all, or be shared with other variables.  variable.cpp: Variable::doEquals calls
+    mUnits->equals(other->units()) and never reads mUnits->parent(): the answer is a function of the CONTENT of
+    the two units objects only.  The trees of this model therefore carry the units inline; the tag below only
+    exists to state that fact (Properties_C10: C10_units_ownership_irrelevant) — the correspondence run draws the
+    object from all these situations (gen/equals_gen.py: emit). *)
+Inductive ownership :=
+| ByName | SameModel | OtherModel (m : nat) | ParentLess | SharedWith (v : nat).
+
+Definition eq_owned_variable (neq : Q -> Q -> bool) (a b : variable * ownership) : bool :=
+  eq_variable neq (fst a) (fst b).
+
 (** * Instances of the comparison of doubles *)
 
 (** |a - b| <= 2^-52 = DBL_EPSILON: the first test of areNearlyEqual.  On values that are identical or
